@@ -29,7 +29,9 @@ TNext ==
        \* after the Reader has moved on to another source, the earlier (caller-owned) source is where it was left
        [] e.ev = "Prev"  -> UNCHANGED rvars /\ Rec(Chk("C05.earlier_source_untouched", e.rest = e.wantRest) \cup Chk("C13.earlier_source_untouched", e.rest = e.wantRest))
        [] e.ev = "Hdrs"  -> UNCHANGED rvars /\ Rec(Chk("C08.member_headers", e.ok))
-       [] e.ev \in {"Crash", "Hang"} -> UNCHANGED rvars /\ RecBegin({"C03.nopanic", "C03.terminates"})
+       \* the process died or made no progress inside this case (or flooded the trace without ever
+       \* returning): whatever the property of the running check says the Reader returns, it did not
+       [] e.ev \in {"Crash", "Hang"} -> UNCHANGED rvars /\ RecBegin({"C03.nopanic", "C03.terminates"} \cup {e.clauses[i] : i \in DOMAIN e.clauses})
 
 TSpec == TInit /\ [][TNext]_tvars
 Report == (l = Len(Trace) + 1) => PrintT("DONE " \o ToString(Len(Trace)) \o " " \o ToJson(viol))
